@@ -477,6 +477,11 @@ def run(tier: str, only=None) -> core.Result:
                      "shared": [{"op": "shared", "target": c["target"], "wire": enc(c["wire"])} for c in pr_meta["shared"]]}
         pr_join = probes.start(HANDLER, CONFIGS, pr_groups, n_each=3)
         # id sequences are forked from workers of their own that never validate anything themselves
+        cc_meta = probes.crossclass_cases(mcases)
+        ct_meta = probes.constructed_cases(mcases)
+        cc_join = probes.start(HANDLER, CONFIGS, {"seqfork": [{"op": "seqfork", "cases": c["cases"]} for c in cc_meta]}, n_each=2)
+        ct_join = probes.start(HANDLER, CONFIGS, {"constructed": [{"op": "constructed", "target": c["target"], "wire": enc(c["wire"])}
+                                                                  for c in ct_meta]}, n_each=1)
         us_meta = probes.unionseq_cases()
         us_join = probes.start(HANDLER, CONFIGS, {"unionseq": [{"op": "unionseq", "calls": c["calls"]} for c in us_meta]}, n_each=2)
     extra_box: Dict[str, Any] = {}
@@ -754,6 +759,60 @@ def run(tier: str, only=None) -> core.Result:
                           f"{wiregen.short(c['target'])} <- {json.dumps(c['wire'], ensure_ascii=True)[:200]}: with one model instance at two "
                           f"positions of the (non-cyclic) object, {pb.get('via')} under {side}: {pb}",
                           {"part": "probe", "probe": "shared", "case": {"op": "shared", "target": c["target"], "wire": enc(c["wire"])}})
+            # validation order across different classes; objects built with defaults left unset
+            try:
+                cc_ans, cc_aud, _ = cc_join()
+                ct_ans, ct_aud, _ = ct_join()
+            except RuntimeError as e:
+                res.harness_errors.append(str(e))
+                cc_ans = None
+            if cc_ans is not None:
+                for n_, g_, a_ in cc_aud + ct_aud:
+                    pr_audit["reasked"] += a_["reasked"]
+                    if a_["mismatches"]:
+                        res.harness_errors.append(f"nondeterministic {g_} answer of the {n_} worker")
+                pr_info["cross_class_sequences"] = 0
+                for n_ in cc_ans["seqfork"]:
+                    ref_of: Dict[str, Any] = {}
+                    for c, a in zip(cc_meta, cc_ans["seqfork"][n_]):
+                        if c["reference"]:
+                            ref_of[workers.line(c["cases"][0])] = a[0]
+                    for c, a in zip(cc_meta, cc_ans["seqfork"][n_]):
+                        if c["reference"]:
+                            continue
+                        pr_info["cross_class_sequences"] += 1
+                        want, got = ref_of.get(workers.line(c["cases"][1])), a[-1]
+                        if want is not None and workers.line(want) != workers.line(got):
+                            ym = c["y"] if c["y"] == "parse_message" else wiregen.short(c["y"])
+                            xm = c["x"] if c["x"].startswith("parse_message") else wiregen.short(c["x"])
+                            pr_info["disagreements"] += 1
+                            store({"class": "order-dependent-behaviour", "backend": n_, "model": ym, "after_class": xm, "member": c["member"]},
+                                  f"under {n_}: {ym} <- {json.dumps(dec(c['cases'][1]['wire']), ensure_ascii=True)[:160]} answers differently "
+                                  f"after an object of {xm} carrying the unknown member '{c['member']}' was validated in the same process: "
+                                  f"{orderdep.first_difference(want, got)}",
+                                  {"part": "probe", "probe": "seqfork", "case": {"op": "seqfork", "cases": c["cases"]},
+                                   "reference": {"op": "seqfork", "cases": [c["cases"][1]]}, "backend": n_})
+                pr_info["constructed_objects"] = 0
+                for i, c in enumerate(ct_meta):
+                    ap, af = ct_ans["constructed"]["pydantic"][i], ct_ans["constructed"]["fallback"][i]
+                    if not (ap.get("ok") and af.get("ok")) or wiregen.is_config_class(wiregen.resolve(c["target"])):
+                        continue
+                    pr_info["constructed_objects"] += 1
+                    for call in ap["calls"]:
+                        a_, b_ = ap["calls"][call], af["calls"].get(call)
+                        if b_ is None:
+                            continue
+                        same = ("exc" in a_) == ("exc" in b_) and ("exc" in a_ or not json_diffs(dec(a_["value"]), dec(b_["value"])))
+                        if not same:
+                            pr_info["disagreements"] += 1
+                            store({"class": "default-argument-serialisation-differs", "model": wiregen.short(c["target"]),
+                                   "call": call.replace(wiregen.short(c["target"]), "x")},
+                                  f"{wiregen.short(c['target'])}(**{json.dumps(c['wire'], ensure_ascii=True)[:160]}) built with the other "
+                                  f"members left to their defaults, then {call}: Pydantic "
+                                  f"{json.dumps(dec(a_['value']), ensure_ascii=True)[:160] if 'value' in a_ else a_}, fallback "
+                                  f"{json.dumps(dec(b_['value']), ensure_ascii=True)[:160] if 'value' in b_ else b_}",
+                                  {"part": "probe", "probe": "constructed",
+                                   "case": {"op": "constructed", "target": c["target"], "wire": enc(c["wire"])}})
             try:
                 us_ans, us_aud, _ = us_join()
             except RuntimeError as e:
@@ -946,6 +1005,8 @@ def run(tier: str, only=None) -> core.Result:
         "four configurations answer every case: {Pydantic, fallback} with orjson importable (the primary comparison) and with orjson masked; integers outside [-2^63, 2^64-1] are in the id, integer-member and free-form positions; nesting deeper than Pydantic's own serialiser follows and lone surrogates are outside the alphabet (Pydantic itself refuses to serialise them)",
         "two numbers are the same JSON value when numerically equal (1 and 1.0); members named id are compared with their JSON type",
         "transport parameter classes (chuk_mcp.transports.*: local configuration, never on the wire; their validators are pydantic decorators) are driven and compared, but their disagreements are listed under unjudged_config_class_disagreements instead of being reported",
+        "validation order across classes: for every class with public names of its own and every such name, an object of another class carrying an unknown member of that name is validated first (model_validate on four other classes; parse_message with a non-object result), then an object of the class carrying it, in a process forked for the sequence; the second answer must equal the answer given in a fresh process",
+        "objects built by application code: the class called with keyword arguments for the required members (and for all members), the rest left to their defaults, then model_dump() / model_dump_json() with default arguments, directly and through every wrapper class of the package (found: non-model classes offering model_dump_json around one object), single and as a batch list; both backends must give the same JSON value",
         "id sequences: every ordered pair of id validations (4 entry points x ids 'abc', '7', 5, 3.0, 3.5, -0.0, 1e3, True, False) runs in a process forked for it; the second answer must equal the answer of the same call made first in a fresh process under each backend; across backends only ids JSON-RPC allows (strings, integers, integral floats) are compared",
         "object probes: ==, !=, membership, list.index and hash of two objects of one class (equal / one member different / only an unknown member different) must behave the same under both backends; calling every public zero-argument method and property (discovered with dir()) must not change the dump under one backend only; every *Manager / *Registry class found under chuk_mcp.protocol is driven through all operation sequences up to length 3 and its wire output compared",
         "input mutated after validation: the wire object is edited in place at every dict/list position down to depth 2 (replace a scalar, delete a key/item, add a key/append, clear); both backends share the caller's objects inside free-form values (Any, the values of Dict[str, Any], unknown members), so C09 only demands that the built object reacts the same way under both",
@@ -969,6 +1030,14 @@ def replay_case(args: Dict[str, Any]) -> Dict[str, Any]:
     wiregen.discover()
     if args.get("part") == "probe":
         ans = {cfg["name"]: workers.fresh_sequence(cfg, HANDLER, [args["case"]])[0] for cfg in CONFIGS}
+        if args["probe"] == "seqfork" and args.get("reference"):
+            cfg = [c_ for c_ in CONFIGS if c_["name"] == args["backend"]][0]
+            ref = workers.fresh_sequence(cfg, HANDLER, [args["reference"]])[0]
+            got = ans[args["backend"]]
+            same = workers.line(ref[0]) == workers.line(got[-1])
+            return {"probe": "seqfork", "in_sequence": got[-1], "alone": ref[0],
+                    "violations": [] if same else [{"sig": {"class": "order-dependent-behaviour", "backend": args["backend"]},
+                                                    "msg": orderdep.first_difference(ref[0], got[-1])}]}
         if args["probe"] == "unionseq" and args.get("reference"):
             cfg = [c_ for c_ in CONFIGS if c_["name"] == args["backend"]][0]
             ref = workers.fresh_sequence(cfg, HANDLER, [args["reference"]])[0]
